@@ -737,7 +737,7 @@ WITNESSES = [
     {"name": "sobieski-rebuilt-only-for-complex", "file": _SOB, "old": "        super().__setstate__(state)\n        self.sobieski_problem = SobieskiProblem(self.dtype)", "new": "        super().__setstate__(state)\n        if self.dtype != SobieskiBase.DataType.FLOAT:\n            self.sobieski_problem = SobieskiProblem(self.dtype)", "expect": "20.1"},
     {"name": "sobieski-setstate-skips-base", "file": _SOB, "old": "        super().__setstate__(state)\n        self.sobieski_problem = SobieskiProblem(self.dtype)", "new": "        self.__dict__.update(state)\n        self.sobieski_problem = SobieskiProblem(self.dtype)", "expect": "20.1"},
     {"name": "sobieski-dtype-excluded", "file": _SOB, "old": "            \"sobieski_problem\",\n", "new": "            \"sobieski_problem\",\n            \"dtype\",\n", "expect": "20.1"},
-    {"name": "analytic-functions-left-empty", "file": _ANA, "old": "        self._sympy_jac_funcs = {}\n        self._init_expressions()\n\n", "new": "        self._sympy_jac_funcs = {}\n\n", "expect": "20.1"},
+    {"name": "analytic-functions-left-empty", "file": _ANA, "old": "        super().__setstate__(state)\n        self._sympy_funcs = {}\n        self._sympy_jac_funcs = {}\n        self._init_expressions()", "new": "        super().__setstate__(state)\n        self._sympy_funcs = {}\n        self._sympy_jac_funcs = {}", "expect": "20.1"},
     {"name": "scalable-model-not-rebuilt", "file": _SCA, "old": "        super().__setstate__(state)\n        self.__create_scalable_model()", "new": "        super().__setstate__(state)", "expect": "20.1"},
     {"name": "doe-lock-not-recreated", "file": _DOE, "old": "    def _init_shared_memory_attrs_after(self) -> None:\n        self.lock = RLock()", "new": "    def _init_shared_memory_attrs_after(self) -> None:\n        pass", "expect": "20."},
     {"name": "doe-lock-not-excluded", "file": _DOE, "old": "_ATTR_NOT_TO_SERIALIZE: ClassVar[set[str]] = {\"lock\"}", "new": "_ATTR_NOT_TO_SERIALIZE: ClassVar[set[str]] = set()", "expect": "20.2"},
